@@ -101,10 +101,44 @@ def games(draw, max_n: int, min_n: int = 1):
     return {"kind": "game", "n": n, "cls": cls, "v": v, "perm": list(perm), "null": null, "w": w, "alpha": alpha, "graph": graph}
 
 
+def _check_large(case: dict) -> Result:
+    """n = 14..18: the single-player entry point for a few players against a vectorised closed-form evaluation (numpy float64,
+    independent of the repository), on a seeded integer game.  Catches anything that depends on ids beyond 8 / 16 bits."""
+    import math
+    import random
+
+    import numpy as np
+    from incomplete_cooperative.shapley import compute_shapley_value_for_player
+    from .. import repo
+    res = Result()
+    n, seed = case["n"], case["seed"]
+    rng = random.Random(seed)
+    size = 1 << n
+    v = np.array([float(rng.randint(-50, 50)) for _ in range(size)])
+    v[0] = 0.0
+    g = repo.full_game(n, v)
+    ids = np.arange(size)
+    pop = np.zeros(size, dtype=np.int64)
+    for b in range(n):
+        pop += (ids >> b) & 1
+    w = np.array([math.factorial(k) * math.factorial(n - k - 1) / math.factorial(n) for k in range(n)])
+    for i in case["players"]:
+        without = ids[(ids >> i) & 1 == 0]
+        want = float(np.sum(w[pop[without]] * (v[without | (1 << i)] - v[without])))
+        got = float(compute_shapley_value_for_player(i, g))
+        if abs(got - want) > 1e-9 * 50 * n:
+            res.fail(f"!=closed-form :: n={n} player {i}: got {got!r}, closed form {want!r}")
+    res.nontrivial = True
+    res.label(f"large n={n}")
+    return res
+
+
 @guarded
 def check_case(case: dict) -> Result:
     if case["kind"] == "basis":
         return _check_basis(case)
+    if case["kind"] == "large":
+        return _check_large(case)
     res = Result()
     n, v = case["n"], case["v"]
     size = 1 << n
@@ -217,12 +251,14 @@ def plan(tier: str) -> list[dict]:
         return ([{"mode": "basis", "ns": [1, 2, 3, 4, 5], "cost": 1}, {"mode": "basis", "ns": [6], "cost": 2}]
                 + [{"mode": "games", "max_n": 7, "examples": 350, "cost": 3} for _ in range(4)]
                 + [{"mode": "games", "max_n": 9, "min_n": 8, "examples": 12, "cost": 3},
-                   {"mode": "games", "max_n": 12, "min_n": 11, "examples": 3, "cost": 4}])
+                   {"mode": "games", "max_n": 12, "min_n": 11, "examples": 3, "cost": 4},
+                   {"mode": "large", "ns": [17], "players": 2, "examples": 2, "cost": 4}])
     return ([{"mode": "basis", "ns": [1, 2, 3, 4, 5, 6], "cost": 2}, {"mode": "basis", "ns": [7], "cost": 5},
              {"mode": "basis", "ns": [8], "cost": 12}, {"mode": "basis", "ns": [9], "cost": 40}]
             + [{"mode": "games", "max_n": 7, "examples": 6000, "cost": 10} for _ in range(8)]
             + [{"mode": "games", "max_n": 10, "min_n": 8, "examples": 80, "cost": 12} for _ in range(4)]
-            + [{"mode": "games", "max_n": 13, "min_n": 11, "examples": 12, "cost": 14} for _ in range(3)])
+            + [{"mode": "games", "max_n": 13, "min_n": 11, "examples": 12, "cost": 14} for _ in range(3)]
+            + [{"mode": "large", "ns": [14, 15, 16, 17, 18], "players": 4, "examples": 10, "cost": 14}])
 
 
 def run_shard(spec: dict, ctx: Ctx) -> None:
@@ -231,5 +267,10 @@ def run_shard(spec: dict, ctx: Ctx) -> None:
             case = {"kind": "basis", "n": n}
             ctx.judge_enum(case, check_case(case))
         ctx.extra["exhaustive_parts"] = [f"all unit games x all players for n in {spec['ns']} against the n! orderings (closed form for n>=8)"]
+        return
+    if spec["mode"] == "large":
+        strat = st.builds(lambda n, seed, ps: {"kind": "large", "n": n, "seed": seed, "players": sorted(set(p % n for p in ps))},
+                          st.sampled_from(spec["ns"]), st.integers(0, 2**31), st.lists(st.integers(0, 63), min_size=spec["players"], max_size=spec["players"]))
+        ctx.run_given(strat, check_case, spec["examples"], shrink=False)
         return
     ctx.run_given(games(spec["max_n"], spec.get("min_n", 1)), check_case, spec["examples"], sample_of=_sample)
